@@ -598,6 +598,23 @@ def _c03(ctx, ad, cfg, env, runner, rng, drv, mult):
     sh = tuple(env.reward_spec.shape)
     shape = None if sh == () else int(sh[0])
     trunc_ok = type(env).__name__ == "LevelBasedForaging"
+    # "shaped like the reward and discount specs": for ALL inputs of this configuration, by JAX's own abstract evaluation
+    # (shape and dtype of reward/discount of reset, of step, and of a step taken from the state a step returns)
+    import jax
+    try:
+        sh_state, sh_ts = jax.eval_shape(env.reset, jax.random.PRNGKey(0))
+        sh_state2, sh_ts2 = jax.eval_shape(env.step, sh_state, env.action_spec.generate_value())
+        _, sh_ts3 = jax.eval_shape(env.step, sh_state2, env.action_spec.generate_value())
+        for phase, sts in (("reset", sh_ts), ("step", sh_ts2), ("step_after_step", sh_ts3)):
+            ctx.evaluations += 1
+            for nm, sp, v in (("reward", env.reward_spec, sts.reward), ("discount", env.discount_spec, sts.discount)):
+                if tuple(v.shape) != tuple(sp.shape) or np.dtype(v.dtype) != np.dtype(sp.dtype):
+                    ctx.fail(ad.name, "reward_discount_shape_dtype", f"{cfg.cid} {phase}: {nm} has shape/dtype {tuple(v.shape)}/{v.dtype}, "
+                             f"{nm}_spec says {tuple(sp.shape)}/{sp.dtype}", {"env": cfg.cid, "phase": phase, "field": nm},
+                             {"cls": type(env).__name__, "field": nm, "phase": phase})
+    except TypeError as ex:  # the state a step returns is not accepted by step (changed pytree type): scan/while would fail too
+        ctx.fail(ad.name, "state_type_unstable", f"{cfg.cid}: step does not accept the state type that reset/step return: {str(ex)[:200]}",
+                 {"env": cfg.cid}, {"cls": type(env).__name__})
     reqs, infos = [], []
     for r in rollouts(ad, env, runner, rng, budget(ctx, 4, 12) * mult, post_terminal=3):
         ts = r["ts"]
